@@ -771,6 +771,32 @@ def _compositions(n, k):
             yield (i,) + rest
 
 
+def bracket_under_nested_pair(items, in_nb=False, shielded=False):
+    """True iff the derivation has a bracket character inside a braces group / mandatory argument that sits
+    inside a *nested* bracket pair of optional-argument content (e.g. [[{[}]]).  Used to tag a recorded finding."""
+    for it in items:
+        k = it[0]
+        if k in ('BOB', 'Br') and in_nb and (shielded or k == 'BOB'):
+            return True
+        if k == 'NB':
+            if bracket_under_nested_pair(it[1], True, False):
+                return True
+        elif k == 'G':
+            if bracket_under_nested_pair(it[1], in_nb, True):
+                return True
+        elif k == 'Math':
+            if bracket_under_nested_pair(it[2], in_nb, shielded):
+                return True
+        elif k in ('Call', 'Env'):
+            for v in it[2]:
+                if isinstance(v, tuple) and v and v[0] in ('grp', 'opt', 'del') and isinstance(v[-1], tuple):
+                    if bracket_under_nested_pair(v[-1], in_nb, shielded or v[0] == 'grp'):
+                        return True
+            if k == 'Env' and bracket_under_nested_pair(it[3], in_nb, shielded):
+                return True
+    return False
+
+
 # --------------------------------------------------------------------------------------
 # deviation vectors
 
